@@ -374,6 +374,7 @@ func c20Run(c *Ctx, cs c20Case) (res c20Result) {
 		return last
 	}
 	var lastActionAt time.Time
+	checkpointFailed := false
 	for _, stp := range cs.Steps {
 		if s.Exited() {
 			break
@@ -492,6 +493,7 @@ func c20Run(c *Ctx, cs c20Case) (res c20Result) {
 				if len(starts) > 0 {
 					last = starts[len(starts)-1].String()
 				}
+				checkpointFailed = true
 				add(c20Finding{Kind: "spec", Name: "latest_wins", Impl: "checkpoint after step " + stp.A + ": last started: " + last, Expect: "command for the current state: " + expv.String() + fmt.Sprintf(" (ui %+v)", ui), Liveness: true})
 				break
 			}
@@ -515,6 +517,9 @@ func c20Run(c *Ctx, cs c20Case) (res c20Result) {
 		// ---- quiescence: eventually (10 s) the last start line is the command for the current state ----
 		t0 := time.Now()
 		deadline := t0.Add(10 * time.Second)
+		if checkpointFailed { // already waited 10 s for this very state
+			deadline = t0.Add(time.Second)
+		}
 		var starts []c20Start
 		var expv Val
 		caught := false
@@ -847,8 +852,39 @@ func c20Gen(r *RNG, thorough bool) c20Case {
 	return cs
 }
 
+// c20SelInPlace: a scripted history around non-moving selection changes with a {+n} template.
+func c20SelInPlace(r *RNG, i int) c20Case {
+	cs := c20Case{Stream: "selinplace", Kind: Pick(r, []string{"instant", "short", "foreverinc", "slowverbose", "foreversilent", "instant"}),
+		Tmpl: Pick(r, []int{0, 1, 1}), Exit: Pick(r, []string{"accept", "abort", "sigterm"}), ExitUs: -1}
+	p := func() int { return Pick(r, []int{3, 20, 40, 80}) }
+	k := 2 + i%2 // items selected
+	cs.Steps = append(cs.Steps, c20Step{A: "toggle", P: p(), C: true})
+	for j := 1; j < k; j++ {
+		cs.Steps = append(cs.Steps, c20Step{A: "up", P: p()}, c20Step{A: "toggle", P: p(), C: true})
+	}
+	// come back onto a selected item (the cursor is on the last selected one; go down 0..k-1 lines)
+	back := r.Intn(k)
+	for j := 0; j < back; j++ {
+		cs.Steps = append(cs.Steps, c20Step{A: "down", P: p()})
+	}
+	cs.Steps = append(cs.Steps, c20Step{A: "refresh", P: 60, C: true})                         // settle: the preview is for this state
+	cs.Steps = append(cs.Steps, c20Step{A: "toggle", P: Pick(r, []int{40, 80, 150}), C: true}) // OFF, in place
+	switch i % 3 {
+	case 0: // end here: the final quiescence check sees the non-moving toggle as the last change
+	case 1: // and on again, in place
+		cs.Steps = append(cs.Steps, c20Step{A: "toggle", P: p(), C: true})
+	case 2: // a second one off, after moving onto it
+		if back > 0 {
+			cs.Steps = append(cs.Steps, c20Step{A: "up", P: p(), C: true}, c20Step{A: "toggle", P: p(), C: true})
+		} else {
+			cs.Steps = append(cs.Steps, c20Step{A: "up", P: p(), C: true}, c20Step{A: "toggle", P: 80})
+		}
+	}
+	return cs
+}
+
 func runC20(c *Ctx) {
-	c.Rep.Rule = "pty sessions with a logging preview command (instant / 50 ms / 6 s / never ending, silent or printing; templates with and without {q} and {+n}); random histories of up/down/toggle/typing/backspace/refresh-preview/change-preview/toggle-preview with pauses 0-80 ms and back-to-back groups; dedicated streams: two moves 0.3-1 ms apart, session end with a live / just superseded preview, one batched action list; non-trivial = at least 3 commands started and 4 model labels (dedicated streams always); distinct by JSON of the case"
+	c.Rep.Rule = "pty sessions with a logging preview command (instant / 50 ms / 6 s / never ending, silent or printing; templates with and without {q} and {+n}); random histories of up/down/toggle/typing/backspace/refresh-preview/change-preview/toggle-preview with pauses 0-80 ms and back-to-back groups; dedicated streams: two moves 0.3-1 ms apart, session end with a live / just superseded preview, selection toggled off/on without moving the cursor under a {+n} template, one batched action list; non-trivial = at least 3 commands started and 4 model labels (dedicated streams always); distinct by JSON of the case"
 	if c.Replay != "" {
 		var cs c20Case
 		b, err := os.ReadFile(c.Replay)
@@ -904,6 +940,11 @@ func runC20(c *Ctx) {
 			cs.Steps = []c20Step{{A: "toggle", P: 100}, {A: "up", P: 30}}
 		}
 		cases = append(cases, cs)
+	}
+	// selection changes that do not move the cursor: select 2-3 items, come back onto a selected one, toggle it off
+	// (or another one on) in place; every step is a checkpoint ({+n} must follow the selection)
+	for i, n := 0, c.N(8, 48); i < n; i++ {
+		cases = append(cases, c20SelInPlace(r, i))
 	}
 	// one batched action list (known: c20-batched-refresh)
 	cases = append(cases, c20Case{Stream: "batch", Kind: "instant", Tmpl: 0, Batch: "up+refresh-preview+down", Exit: "abort", ExitUs: -1,
